@@ -8,7 +8,7 @@ import time
 import z3
 
 NPROC = int(os.environ.get("HDCV_JOBS", "16"))
-DEFAULT_TIMEOUT = int(os.environ.get("HDCV_TIMEOUT_MS", "30000"))
+DEFAULT_TIMEOUT = int(os.environ.get("HDCV_TIMEOUT_MS", "15000"))
 
 _OBLS = []
 
@@ -37,22 +37,29 @@ def _work(i, conn, timeout, seed):
             return
         to = int(by.get("timeout", timeout))
         if o.expect == "sat":
-            to = min(to, 5000)
-        s = _solver_for(o, to, seed)
-        if o.expect == "sat":
+            s = _solver_for(o, min(to, 5000), seed)
             r = s.check()
             v = "covered" if r == z3.sat else ("vacuous" if r == z3.unsat else "cover-unknown")
             conn.send((v, time.time() - t0, "z3", ""))
             return
-        s.add(z3.Not(o.goal))
-        r = s.check()
-        if r == z3.unsat:
-            conn.send(("discharged", time.time() - t0, "z3", ""))
-        elif r == z3.sat:
-            m = s.model()
-            conn.send(("refuted", time.time() - t0, "z3", _model_text(m)))
-        else:
-            conn.send(("unknown", time.time() - t0, "z3", s.reason_unknown()))
+        # portfolio over sound encodings of the same obligation (first unsat wins)
+        variants = [("z3", o)] + [(f"z3/{nm}", alt) for nm, alt in getattr(o, "alternatives", [])]
+        notes = []
+        for nm, v in variants:
+            s = _solver_for(v, to, seed)
+            s.add(z3.Not(v.goal))
+            r = s.check()
+            if r == z3.unsat:
+                conn.send(("discharged", time.time() - t0, nm, "; ".join(notes)))
+                return
+            if r == z3.sat and nm.endswith("noax"):
+                notes.append(f"{nm}: sat without definitions (not a refutation)")
+                continue
+            if r == z3.sat:
+                conn.send(("refuted", time.time() - t0, nm, _model_text(s.model())))
+                return
+            notes.append(f"{nm}: unknown ({s.reason_unknown()})")
+        conn.send(("unknown", time.time() - t0, "z3", "; ".join(notes)))
     except Exception as exc:  # pragma: no cover
         conn.send(("error", time.time() - t0, "z3", f"{type(exc).__name__}: {exc}"))
     finally:
@@ -129,7 +136,7 @@ def discharge(obls, timeout=None, retry=True, use_cvc5=True, progress=None):
             elif not p.is_alive():
                 p.join()
                 done.append((i, ("error", time.time() - t0, "z3", "worker died")))
-            elif time.time() - t0 > to / 1000.0 * 1.5 + 20:
+            elif time.time() - t0 > to / 1000.0 * 1.5 * (1 + len(getattr(obls[i], 'alternatives', []))) + 20:
                 p.kill()
                 p.join()
                 done.append((i, ("unknown", time.time() - t0, "z3", "hard timeout")))
